@@ -1,7 +1,7 @@
 (* C15: kit for the declarations -- suffix bookkeeping of all printers, blank slots at the end of input, the shared
    tails  [blank] [annotations] [separator]  and  [annotations [blank]] [separator]. *)
 From PVIdl Require Import Comb Ast Parser Print Proofs.Total Proofs.RoundTok Proofs.RoundPath Proofs.RoundAnn Proofs.RoundTy
-  Proofs.RoundKit Proofs.RoundNum Proofs.RoundConst.
+  Proofs.RoundKit Proofs.Lex Proofs.RoundNum Proofs.RoundConst.
 From Coq Require Import ZifyN ZifyNat ZifyBool.
 From Coq Require String.
 Import String.StringSyntax.
